@@ -488,6 +488,22 @@ def run_orthotropic(col):
     col.add("C12.O5", "LinearElasticOrthotropic vs saint_venant_kirchhoff_orthotropic",
             "engineering-constant elasticity tensor == second derivative of the orthotropic SVK energy at the undeformed state with parameters from lame_converter_orthotropic",
             not bad, str(bad[:3]))
+    # material axes other than the global ones: a triad that is a permutation of the global axes (the matrix [r1, r2, r3] is not symmetric for a
+    # cyclic permutation, so rows and columns cannot be confused): the tangent is the engineering-constant tensor with its indices relabelled
+    for perm in ((1, 2, 0), (2, 0, 1), (1, 0, 2)):
+        def chk_axes(perm=perm):
+            eye3 = [[1 if i == j else 0 for j in range(3)] for i in range(3)]
+            tri = [eye3[perm[a]] for a in range(3)]          # material axis a points along the global axis perm[a]
+            Wr = P(it.call(svk, [C], dict(mu=mu, lmbda=lmbda, r1=tri[0], r2=tri[1], r3=tri[2])))
+            q = [perm.index(g) for g in range(3)]            # global index -> material index
+            bad = []
+            for i, j, k, l in np.ndindex(3, 3, 3, 3):
+                d2 = ring.subs(dE(dE(Wr, i, j), k, l), at1)
+                if not is_zero(d2 - A[q[i], q[j], q[k], q[l], 0, 0]):
+                    bad.append((i, j, k, l))
+            return not bad, "constitution/tensortrax/models/hyperelastic/_saint_venant_kirchhoff_orthotropic.py: tangent entries %s are not those of the relabelled engineering-constant tensor" % bad[:4]
+        col.check("C12.O5", "saint_venant_kirchhoff_orthotropic with material axes r_a = e_%s" % (list(perm),),
+                  "with the material axes along permuted global axes the tangent at the undeformed state is the orthotropic linear-elastic tensor with its indices relabelled accordingly", chk_axes)
     # Seth-Hill strain exponent k: for every k the orthotropic law with isotropic parameters is the isotropic saint_venant_kirchhoff(k), its
     # energy and stress vanish at the undeformed state (principal-axes world: C = diag(c1, c2, c3))
     svk_iso = it.get(base + "tensortrax.models.hyperelastic._saint_venant_kirchhoff:saint_venant_kirchhoff")
